@@ -112,7 +112,7 @@ SUPPORT = dict(file=FO, name="fv_norm", vis="pub(crate) ", code="""
     }
 
     #[kani::proof]
-    #[kani::unwind(24)]
+    #[kani::unwind(40)]      // the precision search runs <= 22 rounds; head-room so that a LONGER search reaches `assert!(p <= 21)` instead of the unwinding assertion
     fn k4_normalizer16_new_cases() {
         k4_case([0.25, 0.5, 0.25], 3, 0);
         k4_case([-0.0625, 1.125, -0.0625], 3, 7);
